@@ -113,7 +113,7 @@ Section PANOC.
       out_eps o = it_eps lb ub l1 P cf /\
       (overwrites (out_status o) (o_always P) = true ->
          out_x o = ixh cf /\ ixh cf = vadd (ix cf) (ip cf) /\
-         out_y o = iyh cf /\ iyh cf = snd (Psi_hat_of (out_x o)) /\
+         out_y o = snd (psi_yhat (out_x o)) /\
          out_errz o = match errz_in with [] => [] | _ => vdiv (vsub (out_y o) y_in) Σ end) /\
       (overwrites (out_status o) (o_always P) = false -> out_x o = x_in /\ out_y o = y_in /\ out_errz o = errz_in).
   Proof. exact (panoc_exit psi_grad_full psi_yhat grad_L grad_psi lb ub l1 dir_apply has_initial stop_req time_up P x_in y_in Σ errz_in ls_fuel). Qed.
@@ -124,8 +124,8 @@ Section PANOC.
     exists (x grad gradh : list R) (γ : R),
       let step := proj_grad_step lb ub γ x grad in
       out_x o = fst (fst step) /\
-      out_y o = snd (Psi_hat_of (out_x o)) /\
-      Is_gradh (out_x o) (out_y o) gradh /\
+      out_y o = snd (psi_yhat (out_x o)) /\
+      Is_gradh (out_x o) (snd (Psi_hat_of (out_x o))) gradh /\
       out_errz o = match errz_in with [] => [] | _ => vdiv (vsub (out_y o) y_in) Σ end /\
       out_eps o = vnorminf (kkt_residual γ (snd (fst step)) grad gradh) /\
       out_eps o <= eff_tol (o_tol P) /\
